@@ -59,7 +59,7 @@ def smod(t, n):
 
 def name_tables():
     """stem / branch characters from the current source (to decode literal pieces like "寅")"""
-    s = open("/repo/src/tyme/sixtycycle.rs", encoding="utf-8").read()
+    s = open(os.path.join(os.environ.get("VERIF_REPO", "/repo"), "src/tyme/sixtycycle.rs"), encoding="utf-8").read()
     out = {}
     for key in ("HEAVEN_STEM_NAMES", "EARTH_BRANCH_NAMES"):
         m = re.search(r"pub static %s: \[&str; \d+\] = \[(.*?)\];" % key, s)
@@ -148,7 +148,9 @@ class Model:
             raise Unsupported("Vec::push on something that is not a modelled local vector")
         if re.match(r"^<Vec<.*> as IntoIterator>::into_iter$", callee) and isinstance(a[0], VecV):
             return True, IterV(list(a[0].items))
-        if re.match(r"^<(std::)?vec::IntoIter<.*> as Iterator>::next$", callee):
+        if re.match(r"^<\[.*; \d+\] as IntoIterator>::into_iter$", callee) and isinstance(a[0], Tup):
+            return True, IterV(list(a[0].items))          # `for x in [a, b]`: a fixed-size array walked by value
+        if re.match(r"^<(std::|core::)?(vec|array)::IntoIter<.*> as Iterator>::next$", callee):
             ref = args[0]
             it = a[0]
             if isinstance(ref, Ref) and not ref.proj and isinstance(it, IterV):
